@@ -80,9 +80,16 @@ def run_unit(unit, rec):
     rec.trans(2)
     try:
         if var == "uncertainty":
+            # a NON-uniform wavelength axis: the trapezoid weight of interior sample i is (x[i+1] - x[i-1]) / 2; the filters are
+            # divided by the weights so that the capture matrix is still exactly A
+            steps = np.array([1.0, 0.5, 2.0, 1.5, 0.25, 3.0, 1.0, 0.75, 2.5, 1.25])[: n + 1]
+            dom_u = 300.0 + np.concatenate([[0.0], np.cumsum(steps)])
+            wts_u = (dom_u[2:] - dom_u[:-2]) / 2.0
+            filters = filters.copy()
+            filters[:, 1:-1] = filters[:, 1:-1] / wts_u
             sig_f = np.zeros_like(filters)
             sig_f[:, 1:-1] = 0.125 * (1 + (np.arange(m)[:, None] + np.arange(n)[None, :]) % 3)  # std of each filter sample
-            est = dreye.ReceptorEstimator(filters, domain=1.0, filters_uncertainty=sig_f, **kw)
+            est = dreye.ReceptorEstimator(filters, domain=dom_u, filters_uncertainty=sig_f, **kw)
         else:
             est = dreye.ReceptorEstimator(filters, domain=1.0, **kw)
         est.register_system(sources, lb=B.arr(spec["lb"]), ub=B.arr(spec["ub"]))
@@ -96,8 +103,11 @@ def run_unit(unit, rec):
         Eps_arg = 0.0625 * (1.0 + ((np.arange(m)[:, None] * 2 + np.arange(n)[None, :] * 3) % 5))
         Eps_model = own_K2(Eps_arg, K, m)
     else:
-        # trapezoid integral (unit step) of sigma^2 * source^2 = sigma^2 at the source's grid point
-        Eps_model = own_K2(sig_f[:, 1:-1] ** 2, K, m)
+        # trapezoid integral of sigma^2 * source^2 over the registered domain = sigma^2 x the trapezoid weight of the source's grid point
+        Eps_model = own_K2(sig_f[:, 1:-1] ** 2 * wts_u[None, :], K, m)
+        if np.max(np.abs(np.asarray(est.A, dtype=float) - A)) > 1e-12 * (1 + np.max(np.abs(A))):
+            _v(rec, "a", dict(base, L1="-", what="capture-matrix"), "the capture matrix registered on the non-uniform domain is not the trapezoid integral of filters x sources", dict(step="build"))
+            return
     # ---- targets
     Xs = [lo + rng_ * (0.3 + 0.05 * np.arange(n)), lo + rng_ * np.where(np.arange(n) % 2 == 0, 0.7, 0.2), lo + rng_ * 0.5]
     T = [("interior", c0 + Abar @ x) for x in Xs]
@@ -117,6 +127,7 @@ def run_unit(unit, rec):
         adm.append(float(tot.min() + 0.4 * (tot.max() - tot.min())))
     adm = np.array(adm)
     P_all = P
+    first_default = None
     # per-sample receptor weights registered with the targets (not those given to the constructor): strongly non-uniform, different per row
     Wreg = np.array([np.roll(np.array([3.0, 0.4, 1.5, 0.6, 2.0][:m]), k) for k in range(len(T))])
     for L1name, L1 in (("none", None), ("per-sample", adm), ("scalar", float(adm[0])), ("per-sample/batch2", adm), ("none/registered-weights", None)):
@@ -152,6 +163,8 @@ def run_unit(unit, rec):
             rec.outcome("exception")
             continue
         X, Bp, Bv = np.asarray(X, dtype=float), np.asarray(Bp, dtype=float), np.asarray(Bv, dtype=float)
+        if L1name == "none":
+            first_default = (X.copy(), Bv.copy())
         # f/g: reported variance = X^2 @ Eps^T with the model's Eps
         exp_var = X ** 2 @ Eps_model.T
         if Bv.shape != exp_var.shape or np.max(np.abs(Bv - exp_var)) > 1e-10 * (1 + np.max(np.abs(exp_var))):
@@ -217,6 +230,23 @@ def run_unit(unit, rec):
                 _v(rec, bad[0], dict(s2, what=bad[1][:40]), bad[1], c2, observed=dict(X=x, error=err), expected=dict(best_fit=xb, best_error=opt, target=t),
                    script=B.script_est(spec) + (("P = np.array([%r])\nW = np.array([%r])\nest.register_targets(P, W)\nest.minimize_variance(solver='CLARABEL')\nprint(est.X, est.B)\n" % (t.tolist(), Wreg[idx].tolist())) if wreg else
                                                 ("P = np.array([%r])\nprint(est.minimize_variance(P%s))\n" % (t.tolist(), "" if l1_i is None else ", L1=%r" % l1_i))))
+    if var != "explicit" and first_default is not None:
+        # history: a call with an explicit variance matrix must not change the estimator's default variance model
+        rec.path()
+        rec.trans(2)
+        E1 = 0.0625 * (1.0 + ((np.arange(m)[:, None] * 2 + np.arange(n)[None, :] * 3) % 5))
+        try:
+            est.minimize_variance(P_all, Epsilon=E1)
+            X2, _, Bv2 = est.minimize_variance(P_all)
+            X2, Bv2 = np.asarray(X2, dtype=float), np.asarray(Bv2, dtype=float)
+            same = X2.shape == first_default[0].shape and np.max(np.abs(X2 - first_default[0])) <= 1e-7 * np.max(rng_) and np.max(np.abs(Bv2 - first_default[1])) <= 1e-7 * (1 + np.max(np.abs(first_default[1])))
+            rec.outcome("history/%s" % ("same" if same else "differs"))
+            if not same:
+                _v(rec, "g" if var == "default" else "f", dict(base, L1="none", what="history:explicit-Epsilon-then-default"), "minimize_variance() with the default variance model answers differently after a call with an explicit Epsilon", dict(sequence=["minimize_variance(P, Epsilon=E1)", "minimize_variance(P)"]),
+                   observed=dict(X=X2[:2], Bvar=Bv2[:2]), expected=dict(X=first_default[0][:2], Bvar=first_default[1][:2]),
+                   script=B.script_est(spec) + "P = np.array(%r)\nE1 = np.array(%r)\nprint(est.minimize_variance(P))\nest.minimize_variance(P, Epsilon=E1)\nprint(est.minimize_variance(P))\n" % (P_all.tolist(), E1.tolist()))
+        except Exception as e:  # noqa
+            _v(rec, "a", dict(base, L1="none", **exc_sig(e)), "minimize_variance raised %r in the sequence explicit Epsilon -> default" % (e,), dict(sequence="explicit->default"))
     if var == "default":
         # the module-level function with Epsilon=None must use the same default (squared transformed capture matrix)
         from dreye.api.optimize.lsq_linear import lsq_linear_minimize
